@@ -34,7 +34,9 @@ theorem tie_allocation_sites :
 
 /-- the loader recovers panics; blank JSON input, JSON nesting and the salience range are guarded -/
 theorem tie_guards :
-    Gen.loaderRecovers = true ∧ Gen.jsonBlankGuard = true ∧ Gen.jsonDepthGuardSrc = "1024" ∧ Gen.salienceGuard = true := by decide
+    Gen.loaderRecovers = true ∧ Gen.jsonBlankGuard = true ∧ Gen.jsonDepthGuardSrc = "1024" ∧ Gen.salienceGuard = true ∧
+    Gen.salienceGuardSrc = "_, isSalience := receiver.(*ast.Salience); isSalience && (lit.Integer < math.MinInt32 || lit.Integer > math.MaxInt32)" := by
+  decide
 
 /-- **JSON nesting is cut at 1024 levels**: beyond it the translator answers with an error whatever follows, so its
     recursion depth does not depend on the input -/
